@@ -7,6 +7,7 @@ V = os.path.dirname(os.path.dirname(os.path.abspath(__file__)))
 ADDED = {
  "C02": "stale-files histories (the same paths / entry name compiled first with other contents), other-option prefixes, @import / meta.load-css projects, generated programs as inputs",
  "C03": "binary operations are printed relying on operator precedence and left associativity (not only fully parenthesised); @each destructuring over lists of lists, self-recursive functions, `!default !global`",
+ "C04": "`&` as the argument of :not()/:is()/:where(), `&` followed by pseudo-element/attribute/negation suffixes, two suffixed `&` in one selector, and the selector form `@at-root <selector> {...}`",
  "C07": "every value is also printed through interpolation, inspect(), string concatenation, inside lists and maps and with a unit (probe-observed text vs the correctly rounded decimal)",
  "C14": "a share of the calls passes trailing arguments by their documented parameter names",
 }
